@@ -597,6 +597,19 @@ func (u *Unit) havocLoop(s *State, fn *ssa.Function, l *Loop) {
 		if al, ok := c.(*ssa.Alloc); ok && al.Comment == "rangeindex" {
 			s.assume(fmt.Sprintf("(>= %s (- 1))", nv.S))
 		}
+		// a counter that the loop only ever increases (decreases) by constants is never below (above) the value it had
+		// when the loop was entered: the obvious invariant of `for i := 0; i < n; i++`, inferred so that a plain index
+		// loop needs no annotation
+		if al, ok := c.(*ssa.Alloc); ok && nv.Sort == "Int" {
+			if pre, live := s.cells[c]; live && pre.Sort == "Int" {
+				switch monotoneCounter(al, l) {
+				case 1:
+					s.assume(fmt.Sprintf("(>= %s %s)", nv.S, pre.S))
+				case -1:
+					s.assume(fmt.Sprintf("(<= %s %s)", nv.S, pre.S))
+				}
+			}
+		}
 		s.cells[c] = nv
 	}
 	if l.allHeaps {
@@ -626,6 +639,64 @@ func (u *Unit) havocLoop(s *State, fn *ssa.Function, l *Loop) {
 	u.havocGhostIfCalls(s, l)
 }
 
+// monotoneCounter: +1 if every store to the cell inside the loop adds a positive constant to its own value, -1 if every
+// store subtracts one (or adds a negative one), 0 otherwise or if the cell's address is used for anything but loads and stores.
+func monotoneCounter(al *ssa.Alloc, l *Loop) int {
+	if refs := al.Referrers(); refs != nil {
+		for _, r := range *refs {
+			switch x := r.(type) {
+			case *ssa.Store:
+				if x.Addr != ssa.Value(al) {
+					return 0
+				}
+			case *ssa.UnOp, *ssa.DebugRef:
+			default:
+				return 0
+			}
+		}
+	}
+	dir, n := 0, 0
+	for b := range l.body {
+		for _, in := range b.Instrs {
+			st, ok := in.(*ssa.Store)
+			if !ok || st.Addr != ssa.Value(al) {
+				continue
+			}
+			n++
+			bo, ok := st.Val.(*ssa.BinOp)
+			if !ok || (bo.Op != token.ADD && bo.Op != token.SUB) {
+				return 0
+			}
+			ld, ok := bo.X.(*ssa.UnOp)
+			if !ok || ld.Op != token.MUL || ld.X != ssa.Value(al) {
+				return 0
+			}
+			k, ok := bo.Y.(*ssa.Const)
+			if !ok || k.Value == nil {
+				return 0
+			}
+			v := k.Int64()
+			if bo.Op == token.SUB {
+				v = -v
+			}
+			d := 0
+			if v > 0 {
+				d = 1
+			} else if v < 0 {
+				d = -1
+			}
+			if d == 0 || (dir != 0 && d != dir) {
+				return 0
+			}
+			dir = d
+		}
+	}
+	if n == 0 {
+		return 0
+	}
+	return dir
+}
+
 func (u *Unit) havocGhostIfCalls(s *State, l *Loop) {
 	// ghost variables that calls inside the loop may set ("*" = unknown code may run)
 	may := map[string]bool{}
@@ -653,6 +724,9 @@ func (u *Unit) havocGhostIfCalls(s *State, l *Loop) {
 						}
 						want := c.Callee
 						if i := strings.LastIndex(want, "#"); i > 0 {
+							want = want[:i]
+						}
+						if i := strings.Index(want, "<"); i > 0 {
 							want = want[:i]
 						}
 						if want == nm || want == shortCallee(nm) || strings.HasSuffix(shortCallee(nm), "."+want) {
